@@ -203,7 +203,7 @@ Section Inv.
 
   Definition evok (ev : sev) : Prop :=
     match ev with
-    | EvW w => wok w
+    | EvW w | EvLose w => wok w
     | EvReq g0 g1 g2 => Forall wok g0 /\ Forall wok g1 /\ Forall wok g2
     | _ => True
     end.
@@ -362,6 +362,48 @@ Section Inv.
     - cbn [fst]. apply Hquiet. destruct (pubs_between_apply_w b WClear) as [A|[A _]]; [exact A|]. cbn in A. lia.
   Qed.
 
+
+  (* a writer op whose broadcast never reaches the node: the client keeps the state of its position *)
+  Lemma know_lose : forall b s l c w, Know (mkSys b s l c) -> wok w -> Know (mkSys (apply_w b w) s l c).
+  Proof.
+    intros b s l c w HK Hw.
+    destruct HK as [HWF [HKL [Hlim [Hep [Hcm [Hlive Hph]]]]]]. cbn [y_b y_c y_l y_s] in *.
+    set (b' := apply_w b w).
+    assert (WF' : WF b') by (apply WF_apply_w; auto).
+    assert (KL' : keys_lt b') by (apply keys_lt_apply_w; auto).
+    assert (Emono : b_epoch b <= b_epoch b') by apply apply_w_epoch_mono.
+    assert (Hep' : forall x, c_ep c = Some x -> x <= b_epoch b') by (intros x Hx; specialize (Hep x Hx); lia).
+    assert (Hext : b_epoch b' = b_epoch b -> same_epoch_ext b b') by (apply apply_w_ext).
+    destruct (l_sub l) eqn:El.
+    - pose proof (Hlive eq_refl) as Eph. rewrite Eph in Hph. destruct Hph as [_ [Hcep Hs]].
+      assert (Hle : l_epoch l <= b_epoch b) by (apply Hep; exact Hcep).
+      unfold Know; cbn [y_b y_c y_l y_s].
+      split; [exact WF'|]. split; [exact KL'|]. split; [exact Hlim|]. split; [exact Hep'|]. split; [exact Hcm|].
+      split; [intros _; exact Eph|]. rewrite Eph. split; [exact El|]. split; [exact Hcep|].
+      intros He. assert (Ee : b_epoch b' = b_epoch b) by lia. rewrite Ee in He.
+      destruct (Hs He) as [B1 [B2 [B3 B4]]]. pose proof (Hext Ee) as X. pose proof (ext_top _ _ X).
+      split; [exact B1|]. split; [lia|]. split; [eapply sync_ext; eauto|].
+      intros o Ho. rewrite (ext_chg _ _ _ X) by lia. apply B4. exact Ho.
+    - unfold Know; cbn [y_b y_c y_l y_s].
+      split; [exact WF'|]. split; [exact KL'|]. split; [exact Hlim|]. split; [exact Hep'|]. split; [exact Hcm|].
+      split; [intros A; congruence|].
+      destruct (c_phase c) as [|cur| | |e] eqn:Eph.
+      + exact I.
+      + destruct Hph as [Hne Hph]. split; [exact Hne|].
+        intros Hs. destruct (Hph Hs) as [A1 [A2 [A3 A4]]]. split; [exact A1|]. split; [exact A2|]. split; [exact A3|].
+        intros Hce. assert (Ee : b_epoch b' = b_epoch b) by (specialize (Hep _ Hce); lia).
+        rewrite Ee in Hce. destruct (A4 Hce) as [B1 B2]. pose proof (ext_top _ _ (Hext Ee)).
+        split; [lia|]. eapply pendupto_ext; eauto.
+      + destruct Hph as [Hne Hph]. split; [exact Hne|].
+        intros Hce. assert (Ee : b_epoch b' = b_epoch b) by (specialize (Hep _ Hce); lia).
+        rewrite Ee in Hce. destruct (Hph Hce) as [B1 B2]. pose proof (ext_top _ _ (Hext Ee)).
+        split; [lia|]. eapply pend_ext; eauto.
+      + destruct Hph as [A _]. congruence.
+      + destruct e; auto. destruct Hph as [Hne Hph]. split; [exact Hne|].
+        intros Hce. assert (Ee : b_epoch b' = b_epoch b) by (specialize (Hep _ Hce); lia).
+        rewrite Ee in Hce. destruct (Hph Hce) as [B1 B2]. pose proof (ext_top _ _ (Hext Ee)).
+        split; [lia|]. eapply pend_ext; eauto.
+  Qed.
 
   (* ---------------------------------------------------------- unsubscribe / drop *)
   Lemma know_unsub : forall b s s' l c,
@@ -774,7 +816,8 @@ Section Inv.
   (* ---------------------------------------------------------- every step *)
   Lemma know_step : forall y ev, Know y -> evok ev -> Know (step y ev).
   Proof.
-    intros y ev HK Hev. destruct ev as [w|g0 g1 g2| |].
+    intros y ev HK Hev. destruct ev as [w|g0 g1 g2| | |w].
+    5:{ destruct y as [b s l c]. unfold MapSub.step, step_out. cbn [y_b y_c y_l y_s fst]. apply know_lose; auto. }
     - apply know_step_w; auto.
     - destruct Hev as [H0 [H1 H2]]. destruct y as [b s l c].
       unfold MapSub.step, step_out. cbn [y_b y_c y_l y_s].
